@@ -920,14 +920,16 @@ class DocutilsRenderer(RendererProtocol):
         # create the section node
         new_section = nodes.section()
         self.add_line_and_source_path(new_section, token)
-        # if a top level section,
-        # then add classes to set default mathjax processing to false
-        # we then turn it back on, on a per-node basis
-        if level == 1 and self.blocks_mathjax_processing:
-            new_section["classes"].extend(["tex2jax_ignore", "mathjax_ignore"])
-
         # update the state of the section levels
         self.update_section_level_state(new_section, level)
+
+        # if a top level section (whatever its heading level: documents can start at H2),
+        # then add classes to set default mathjax processing to false
+        # we then turn it back on, on a per-node basis
+        if self.blocks_mathjax_processing and not isinstance(
+            new_section.parent, nodes.section
+        ):
+            new_section["classes"].extend(["tex2jax_ignore", "mathjax_ignore"])
 
         # create the title for this section
         title_node = nodes.title(token.children[0].content if token.children else "")
